@@ -965,7 +965,7 @@ func main() {
 		n := c.N(480, 10_000)
 		c.Isolated("trials", n, vf.IsoOpts{Batch: 1, Par: 16, Timeout: 90 * time.Second}, runTrial)
 		c.Isolated("interrupted-install", c.N(64, 800), vf.IsoOpts{Batch: 1, Par: 16, Timeout: 90 * time.Second}, runInterruptedInstall)
-		c.Isolated("install-race", c.N(6400, 48_000), vf.IsoOpts{Batch: 1, Par: 16, Timeout: 90 * time.Second}, runInstallRace)
+		c.Isolated("install-race", c.N(6400, 48_000), vf.IsoOpts{Batch: 1, Par: 16, Timeout: 4 * time.Minute}, runInstallRace) // a trial takes milliseconds; the generous budget (and the 105 s in-child case watchdog derived from it) is for loaded machines
 		c.Floor("install_race_trials", 4000)
 		c.Floor("interrupted_install_trials", 40)
 		c.Floor("installs_interrupted", 40)
